@@ -1151,6 +1151,47 @@ fn run_case(ctx: &mut Ctx, idx: u64, rng: &mut Rng) {
 	for _ in 0..ctx.fail_rounds {
 		fail_round(ctx, &run, rng, &path, &session, &secrets);
 	}
+	// ---- fulfil-side attribution data (hold times of a settled HTLC)
+	fulfil_round(ctx, &run, rng, &path, &session, &secrets);
+}
+
+/// R8f: hold times carried back with a fulfilment. The last hop that speaks attribution data (usually the
+/// final one) starts the data, every hop before it adds its own hold time; the origin must report the hold
+/// times of the first min(that many, 20) hops exactly as set.
+fn fulfil_round(ctx: &mut Ctx, run: &Run, rng: &mut Rng, path: &Path, session: &SecretKey, secrets: &[[u8; 32]]) {
+	let w = ctx.w;
+	let n = path.hops.len().min(secrets.len());
+	if n == 0 {
+		return;
+	}
+	// hops after `start` do not provide attribution data (or the chain was cut by a legacy hop)
+	let start = if rng.chance(3, 4) { n - 1 } else { rng.below(n as u64) as usize };
+	let holds: Vec<u32> = (0..=start).map(|_| rng.next() as u32 >> rng.below(32)).collect();
+	let built = vcore::guarded(|| {
+		let mut a: Option<AttributionData> = None;
+		for j in (0..=start).rev() {
+			a = Some(lightning::ln::onion_utils::verif_process_fulfill_attribution_data(a, &secrets[j], holds[j]));
+		}
+		a.unwrap()
+	});
+	let a = match built {
+		Ok(a) => a,
+		Err(p) => {
+			ctx.violate(run, "R8-holdtimes", &format!("building fulfil attribution data panicked: {}", vcore::canon(&p)), p);
+			return;
+		},
+	};
+	ctx.rep.count("fulfil_hold_time_reports_checked");
+	let want = (start + 1).min(MAX_ATTR_HOPS);
+	match vcore::guarded(|| lightning::ln::onion_utils::verif_decode_fulfill_attribution_data(&w.secp, &NullLogger, path, session, a)) {
+		Ok(got) => {
+			ctx.rep.max("max_fulfil_hold_times_reported", got.len() as u64);
+			if got != holds[..want] {
+				ctx.violate(run, "R8-holdtimes", "the origin does not report the hold times the hops attached to a fulfilment", format!("{} hops, attribution starts at hop {}: expected {:?} got {:?}", path.hops.len(), start, &holds[..want], got));
+			}
+		},
+		Err(p) => ctx.violate(run, "R8-holdtimes", &format!("decoding fulfil attribution data panicked: {}", vcore::canon(&p)), p),
+	}
 }
 
 fn fail_round(ctx: &mut Ctx, run: &Run, rng: &mut Rng, path: &Path, session: &SecretKey, secrets: &[[u8; 32]]) {
